@@ -26,7 +26,18 @@ if __name__ == "__main__":
     except SystemExit:
         raise
     except BaseException:
-        traceback.print_exc()
+        tb = traceback.format_exc()
+        print(tb)
         rc = 3
+        # a check that cannot complete has not shown the property: report it
+        if len(sys.argv) > 1 and "--replay" not in sys.argv:
+            import hashlib, json
+            pid = sys.argv[1].upper()
+            d = os.path.join(os.path.dirname(os.path.dirname(os.path.abspath(__file__))), "replays", pid)
+            os.makedirs(d, exist_ok=True)
+            path = os.path.join(d, "harness-" + hashlib.sha1(tb.encode()).hexdigest()[:10] + ".json")
+            json.dump({"property": pid, "kind": "harness-exception", "traceback": tb}, open(path, "w"), indent=1)
+            print(f"VIOLATION property={pid} replay={path} no-failing-input-found")
+            rc = 1
     sys.stdout.flush()
     os._exit(rc)
